@@ -12,8 +12,22 @@ FIELD_ALPHA = [MISSING, None, 'x', -1, 0, 1e9, [1, 2, 3, 4, 5, 6, 7]]
 
 
 def dict_variants(name):
+    import numpy as np
     base = registry.base_params(name)
     yield ('fixture', dict(base))
+    # values of another type that the (lax) config model coerces: the two construction paths must agree on them too
+    for f, v in base.items():
+        alts = []
+        if isinstance(v, bool):
+            continue
+        if isinstance(v, int):
+            alts = [float(v), np.int64(v), str(v)]
+        elif isinstance(v, float):
+            alts = [np.float64(v), str(v)] + ([int(v)] if float(v).is_integer() else [])
+        for a in alts:
+            d = dict(base)
+            d[f] = a
+            yield (f"{f}=<{type(a).__name__}>{a!r}", d)
     for f in base:
         for v in FIELD_ALPHA:
             d = dict(base)
